@@ -34,7 +34,7 @@ class SetV:
         self.items = list(items)
 
 
-BUILTIN_EXC = ['BaseException', 'Exception', 'KeyError', 'IndexError', 'ValueError',
+BUILTIN_EXC = ['BaseException', 'KeyboardInterrupt', 'SystemExit', 'GeneratorExit', 'Exception', 'KeyError', 'IndexError', 'ValueError',
                'TypeError', 'AssertionError', 'AttributeError', 'OSError', 'IOError',
                'EnvironmentError', 'OverflowError', 'StopIteration', 'RuntimeError',
                'UserWarning', 'Warning', 'FileExistsError', 'FileNotFoundError',
